@@ -250,6 +250,21 @@ def Affected (eval : EvalFn) (frun : FRun) (trig : JVal) (dd : Option (List (Lab
      (∃ act inputs key items, gate eval trig dr s = .each act inputs key items ∧
         ∃ a ∈ itemAnswers eval frun s.label act inputs key s.logic 0 items, a.faulty = true))
 
+/-! ### the fault-free corner: every evaluation answers, every task completes -/
+
+/-- an environment without faults: the Function oracle of C01/C02 -/
+def liftRun (run : RunFn) : FRun := fun _ _ t x => .ans (run t x)
+
+/-- the task states of the pass in which everything completes (one `done` per forEach iteration) -/
+def doneTags (eval : EvalFn) (run : RunFn) (trig : JVal) : List Step → Trace → List (Label × StepTags)
+  | [], _ => []
+  | s :: rest, t =>
+    let r := stepResult eval run trig (depRes t.results s.deps) s
+    let its := match gate eval trig (depRes t.results s.deps) s with
+      | .each _ _ _ items => items.map fun _ => Tag.done
+      | _ => []
+    (s.label, ⟨.done, its⟩) :: doneTags eval run trig rest ⟨t.results ++ [(s.label, r.1)], t.calls ++ r.2⟩
+
 /-! ## 2. one ResourceFunction evaluation under an API fault -/
 
 inductive FaultKind where
